@@ -534,4 +534,114 @@ def F51A.ser (v : OptA) : Text :=
   | some p => p ++ '\n' :: v.bic
   | none => v.bic
 
+/-! ### currency + amount: 32B, 33B (positive), 71F, 71G `3!a15d`; value date + currency + amount: 32A, 32C, 32D `6!n3!a15d`
+
+Amounts are exact decimals in the model (`Dec`); the implementation holds an f64.  The two agree as long as what has to
+be printed fits in 15 significant digits (`amountExact`); outside that region the driver answers `#skip` (the f64
+region is the open finding F-C06-f64-precision, judged by the C06 oracle). -/
+
+structure CcyAmt where
+  ccy : Text
+  amt : Dec
+  deriving Repr
+
+/-- the part behind the currency: non-empty, `parse_amount_with_currency`, optionally `> 0` -/
+def amountPart (a ccy : Text) (positive : Bool) : Res Dec :=
+  if a.isEmpty then .err
+  else match parseAmountWithCurrency a ccy with
+    | some d => if positive && d.mant == 0 then .err else .ok d
+    | none => .err
+
+def CcyAmt.parse (positive : Bool) (input : Text) : Res CcyAmt :=
+  if !isAsciiT input then .err
+  else if blen input < 4 then .err
+  else match parseCurrencyNonCommodity (input.take 3) with
+    | .ok ccy => (match amountPart (input.drop 3) ccy positive with | .ok d => .ok ⟨ccy, d⟩ | .err => .err | .panic => .panic)
+    | .err => .err
+    | .panic => .panic
+def CcyAmt.ser (v : CcyAmt) : Text := v.ccy ++ formatAmount v.amt.normalize (currencyDecimals v.ccy)
+def CcyAmt.json (v : CcyAmt) : J := .obj [("currency", .str v.ccy), ("amount", J.dec v.amt)]
+
+structure DateCcyAmt where
+  date : YMD
+  ccy : Text
+  amt : Dec
+  deriving Repr
+
+def DateCcyAmt.parse (input : Text) : Res DateCcyAmt :=
+  if !isAsciiT input then .err
+  else if blen input < 10 then .err
+  else match parseDateYYMMDD (input.take 6) with
+    | none => .err
+    | some d =>
+      match parseCurrencyNonCommodity ((input.drop 6).take 3) with
+      | .ok ccy => (match amountPart (input.drop 9) ccy true with | .ok a => .ok ⟨d, ccy, a⟩ | .err => .err | .panic => .panic)
+      | .err => .err
+      | .panic => .panic
+def DateCcyAmt.ser (v : DateCcyAmt) : Text := printYYMMDD v.date ++ v.ccy ++ formatAmount v.amt.normalize (currencyDecimals v.ccy)
+def DateCcyAmt.json (v : DateCcyAmt) : J := .obj [("value_date", .str (isoDate v.date)), ("currency", .str v.ccy), ("amount", J.dec v.amt)]
+
+/-- is the amount text `a` (for currency text `ccy`) inside the region where f64 and exact decimals agree:
+integer digits + max(written decimals, currency decimals) ≤ 15 -/
+def amountExact (a ccy : Text) : Bool :=
+  let intD := (a.takeWhile Char.isDigit).length
+  let dec := match a.findIdx? (fun c => c == ',' || c == '.') with
+    | some p => a.length - p - 1
+    | none => 0
+  intD + Nat.max dec (currencyDecimals ccy) ≤ 15
+
+/-! ### balances 60F, 60M, 62F, 62M, 64, 65: `1!a6!n3!a15d` -/
+
+structure Balance where
+  dc : Text
+  date : YMD
+  ccy : Text
+  amt : Dec
+  deriving Repr
+
+def Balance.parse (input : Text) : Res Balance :=
+  if blen input < 10 then .err
+  else if !isAsciiT input then .err
+  else
+    let dc := input.take 1
+    if dc != ['D'] && dc != ['C'] then .err
+    else match parseDateYYMMDD ((input.drop 1).take 6) with
+      | none => .err
+      | some d =>
+        match parseCurrency ((input.drop 7).take 3) with
+        | .ok ccy => (match parseAmountWithCurrency (input.drop 10) ccy with | some a => .ok ⟨dc, d, ccy, a⟩ | none => .err)
+        | .err => .err
+        | .panic => .panic
+def Balance.ser (v : Balance) : Text := v.dc ++ printYYMMDD v.date ++ v.ccy ++ formatAmount v.amt.normalize (currencyDecimals v.ccy)
+def Balance.json (v : Balance) : J :=
+  .obj [("debit_credit_mark", .str v.dc), ("value_date", .str (isoDate v.date)), ("currency", .str v.ccy), ("amount", J.dec v.amt)]
+
+/-! ### 34F `3!a[1!a]15d` (floor limit), 19 `17d` -/
+
+structure F34F where
+  ccy : Text
+  ind : Option Char
+  amt : Dec
+  deriving Repr
+
+def F34F.parse (input : Text) : Res F34F :=
+  if !isAsciiT input then .err
+  else if blen input < 4 then .err
+  else match parseCurrency (input.take 3) with
+    | .ok ccy =>
+      let fourth := (input.drop 3).head?
+      let (ind, rest) : Option Char × Text :=
+        if fourth == some 'D' || fourth == some 'C' then (fourth, input.drop 4) else (none, input.drop 3)
+      (match amountPart rest ccy true with | .ok d => .ok ⟨ccy, ind, d⟩ | .err => .err | .panic => .panic)
+    | .err => .err
+    | .panic => .panic
+def F34F.ser (v : F34F) : Text :=
+  v.ccy ++ (match v.ind with | some c => [c] | none => []) ++ formatAmount v.amt.normalize (currencyDecimals v.ccy)
+def F34F.json (v : F34F) : J :=
+  .obj [("currency", .str v.ccy), ("indicator", match v.ind with | some c => .str [c] | none => .null), ("amount", J.dec v.amt)]
+
+/-- 19: `parse_amount_max_len(input, 17)`, written with two decimals (exact for amounts with at most two) -/
+def F19.parse (input : Text) : Res Dec := Res.ofOption (parseAmountMaxLen input 17)
+def F19.ser (d : Dec) : Text := formatAmount d.normalize 2
+
 end SwiftMT.Fields
